@@ -7,6 +7,9 @@
             changed a value handed out earlier).
    "conc":  a timed history of completed calls.  [C14_conc_ok]: it is linearizable w.r.t. the
             plain model [sp_step] from the state the sequential setup produced (LinCheck).
+   "hammer": one writer goroutine, several readers; [C14_hammer_ok]: every read equals the query's
+            answer after SOME prefix of the writer's calls inside the read's window (a torn
+            snapshot matches no prefix).
    [al_observe]: the same "alias" experiment run INSIDE the heap model (Model/TrackerAlias.v):
             the model's caller scribbles over everything reachable from every value it gets
             (operation results and sweep results, right after reading them back through the
@@ -31,6 +34,24 @@ Notation hcall := (LinCheck.hcall op (list bytes)) (only parsing).
 Definition C14_conc_start (me : name) (setup : list op) : tstate := fst (sp_run (sp_new me) setup).
 Definition C14_conc_ok (me : name) (setup : list op) (h : list hcall) : bool :=
   LinCheck.linearizable tstate op (list bytes) sp_step_obs obs_eqb (C14_conc_start me setup) h C14_budget.
+
+(* ---------- one writer, many readers ("hammer") ---------- *)
+(* ONE goroutine applies w_1..w_n; readers run queries concurrently.  A read carries
+   lo = number of writer calls that had RETURNED before the read was invoked and
+   hi = number of writer calls that had been STARTED when the read returned.  With a single
+   writer the history is linearizable iff every read is the query's answer in the state after
+   some prefix w_1..w_j, lo <= j <= hi (queries do not change the plain model's state). *)
+Definition is_query (o : op) : bool :=
+  match o with OGetNick _ | OGetChannel _ | OIsOn _ _ | OMe => true | _ => false end.
+Fixpoint prefix_states (s : tstate) (ws : list op) : list tstate :=
+  s :: match ws with [] => [] | w :: ws' => prefix_states (fst (sp_step s w)) ws' end.
+Record hread := { r_q : op; r_lo : nat; r_hi : nat; r_obs : list bytes }.
+Definition read_ok (sts : list tstate) (r : hread) : bool :=
+  is_query (r_q r) && Nat.leb (r_lo r) (r_hi r)
+  && existsb (fun s => obs_eqb (snd (sp_step_obs s (r_q r))) (r_obs r))
+             (take (S (r_hi r - r_lo r)) (drop (r_lo r) sts)).
+Definition C14_hammer_ok (me : name) (setup ws : list op) (reads : list hread) : bool :=
+  forallb (read_ok (prefix_states (C14_conc_start me setup) ws)) reads.
 
 (* ---------- the alias experiment inside the heap model ---------- *)
 Definition al_step_std := al_step enumA_std enumN_std privs_Copy.
